@@ -591,7 +591,8 @@ impl<const B: Word> Repr<B> {
             return Exact(shl_digits::<B>(&self.significand, shift));
         }
 
-        let shift = (min_exponent - self.exponent) as usize;
+        // in i128: the difference exceeds isize::MAX for an exponent next to isize::MIN
+        let shift = (min_exponent as i128 - self.exponent as i128) as usize;
         if shift > self.digits() + 1 {
             // the magnitude is less than a quarter of 2^min_exponent: every such number is rounded
             // like a quarter (don't evaluate the possibly huge power 2^shift)
@@ -614,7 +615,7 @@ impl<const B: Word> Repr<B> {
         assert!(B == 2);
         debug_assert!(self.is_finite());
 
-        if self.significand.is_zero() || self.exponent + self.digits() as isize > -126 {
+        if self.significand.is_zero() || self.exponent.saturating_add(self.digits() as isize) > -126 {
             Context::<R>::new(24)
                 .repr_round_ref(self)
                 .and_then(|v| v.into_f32_internal())
@@ -633,7 +634,7 @@ impl<const B: Word> Repr<B> {
         assert!(B == 2);
         debug_assert!(self.is_finite());
 
-        if self.significand.is_zero() || self.exponent + self.digits() as isize > -1022 {
+        if self.significand.is_zero() || self.exponent.saturating_add(self.digits() as isize) > -1022 {
             Context::<R>::new(53)
                 .repr_round_ref(self)
                 .and_then(|v| v.into_f64_internal())
